@@ -205,7 +205,7 @@ def _refactor_audit(pid: str, out) -> Dict[str, Any]:
         finally:
             shutil.rmtree(tmp, ignore_errors=True)
     rows: Dict[str, str] = {}
-    with ThreadPoolExecutor(max_workers=int(os.environ.get('GXSTAT_AUDIT_JOBS', '8'))) as ex:
+    with ThreadPoolExecutor(max_workers=int(os.environ.get('GXSTAT_AUDIT_JOBS', '16'))) as ex:
         for name, st in ex.map(one, names):
             rows[name] = st
             if st == 'FALSE-ALARM':
